@@ -70,7 +70,8 @@ pub trait Host {
     fn db_write(&mut self, len: usize) -> WriteFate;
     fn db_written(&mut self, bytes: &[u8]);
     fn on_state(&mut self, id: usize, desc: Option<&str>, cmdline: Option<&str>, prev: u8, next: u8);
-    fn on_update(&mut self, counts: [usize; 6]);
+    /// `counts` per state (want, ready, queued, running, done, failed) and `total()`.
+    fn on_update(&mut self, counts: [usize; 6], total: usize);
     fn on_task_started(&mut self, id: usize, cmdline: &str);
     fn on_task_finished(&mut self, id: usize, cmdline: &str, term: &Termination, output: &[u8]);
 }
@@ -228,7 +229,8 @@ impl<'a> Progress for Tee<'a> {
             counts.get(BuildState::Done),
             counts.get(BuildState::Failed),
         ];
-        with_host(|h| h.on_update(c));
+        let total = counts.total();
+        with_host(|h| h.on_update(c, total));
         self.0.update(counts)
     }
     fn task_started(&self, id: BuildId, build: &Build) {
